@@ -53,7 +53,8 @@ def prespawn_scripts(rng, tier):
             lines.append("connect %d 1200" % c)
         c = rng.randrange(nclients)
         lines += ["cop %d prespawn 0" % c, "cframe %d" % c]
-        if rng.random() < 0.5:
+        other = rng.random() < 0.6
+        if other:
             lines.append("sop spawn 1 1 0=%d" % rng.randrange(50))
             if white:
                 lines.append("sop vis %d 1 1" % c)
@@ -62,6 +63,9 @@ def prespawn_scripts(rng, tier):
         if rng.random() < 0.5:
             lines.append("sframe 1 16")
         lines.append("sop map %d 2 0" % c)
+        if other and rng.random() < 0.6:
+            # the message that carries the (lonely) mapping also carries a despawn record and nothing else
+            lines.append(rng.choice(["sop despawn 1", "sop vis %d 1 0" % c]) if white else "sop despawn 1")
         for _ in range(rng.randrange(1, 3)):
             lines.append("sframe 1 16")
             if rng.random() < 0.3:
